@@ -279,6 +279,49 @@ theorem C20_module_wrong_type {h : Heap} (mid : Nat) (m : Net) (hm : h.nets mid 
     (ud : Option (List (String × Tok))) : constructFrom h .dens mid ud = .error .AttributeError := by
   simp [constructFrom, hm, hk]
 
+/-- **C20_module_args_ignored.** The constructor call as the caller writes it,
+`Kind(num_visible, num_hidden, num_aux, unitary_dict, module=m)` (`ctorOp`, what the driver executes for every
+construction): with a module, the sizes passed alongside it play no role — any two choices (nothing, the module's own
+sizes, other numbers; any generator draws) give the same world and the same outcome, namely those of `Kind(module=m)`;
+without a module it is the sizes branch with exactly these sizes. -/
+theorem C20_module_args_ignored (w : World) (slot : Nat) (kind : Kind) (nv nv' : Nat) (nh na nh' na' : Option Nat)
+    (ud : Option (List (String × Tok))) (ms : Nat) (rand rand' : List (List Tok)) :
+    step w (ctorOp slot kind nv nh na ud (some ms) rand) = step w (ctorOp slot kind nv' nh' na' ud (some ms) rand') ∧
+    step w (ctorOp slot kind nv nh na ud (some ms) rand) = step w (.constructFrom slot kind ms ud) ∧
+    step w (ctorOp slot kind nv nh na ud none rand) = step w (.construct slot kind nv nh na ud rand) :=
+  ⟨rfl, rfl, rfl⟩
+
+/-- **C20_module_sizes_from_module.** Whatever sizes the caller passes alongside `module=m` (for every world with a
+well-formed heap, every slot, every state type): if the constructor call succeeds, the state bound afterwards has the
+MODULE's sizes (`num_visible`, `num_hidden`, and `num_aux` for a mixed state) and the module object itself as its
+amplitude network, the module object is unchanged, and a phase network (where one exists) is a new object with the
+module's size attributes — none of this depends on the arguments `nv nh na`. -/
+theorem C20_module_sizes_from_module (w : World) (wf : HeapWF w.heap) (slot : Nat) (kind : Kind) (nv : Nat)
+    (nh na : Option Nat) (ud : Option (List (String × Tok))) (ms : Nat) (rand : List (List Tok))
+    (mid : Nat) (m : Net) (hms : w.modules ms = some mid) (hm : w.heap.nets mid = some m)
+    (hok : (step w (ctorOp slot kind nv nh na ud (some ms) rand)).2 = none) :
+    ∃ st, (step w (ctorOp slot kind nv nh na ud (some ms) rand)).1.states slot = some st ∧
+      st.kind = kind ∧ st.nv = m.nv ∧ st.nh = m.nh ∧ (kind = .dens → st.na = some m.na) ∧
+      aget st.nets "rbm_am" = some mid ∧
+      (step w (ctorOp slot kind nv nh na ud (some ms) rand)).1.heap.nets mid = some m ∧
+      (kind ≠ .pos → ∃ ph cp, aget st.nets "rbm_ph" = some ph ∧ ph ≠ mid ∧
+        (step w (ctorOp slot kind nv nh na ud (some ms) rand)).1.heap.nets ph = some { m with params := cp }) := by
+  simp only [ctorOp, step, hms] at hok ⊢
+  cases hc : constructFrom w.heap kind mid ud with
+  | error e => simp [hc] at hok
+  | ok r =>
+    obtain ⟨h', st⟩ := r
+    obtain ⟨a1, a2, a3, _, a5, a6, a7, _, a9⟩ := C20_module wf kind mid m hm ud h' st hc
+    refine ⟨st, by simp, a1, a5, a6, a7, a2, by simpa using a3, fun hk => ?_⟩
+    obtain ⟨ph, cp, b1, _, b3, b4, _⟩ := a9 hk
+    exact ⟨ph, cp, b1, b3, by simpa using b4⟩
+
+/-- the hypotheses are satisfiable and the statement is not vacuous: a mixed state built from a 2-3-1 module together with
+the inconsistent sizes `num_visible=7, num_hidden=5, num_aux=4` has the module's sizes 2 / 3 / 1 -/
+example : (((run World.empty [.mkModule 0 .purif 2 (some 3) (some 1) false [5, 6],
+    ctorOp 0 .dens 7 (some 5) (some 4) none (some 0) []]).states 0).map (fun st => (st.nv, st.nh, st.na)))
+    = some (2, 3, some 1) := by decide
+
 /-! ### C20.2 — no aliasing between the networks of a state, for every reachable history -/
 
 /-- **C20_no_alias.** For EVERY history of operations (construct from sizes or modules — including several
